@@ -114,6 +114,16 @@ def gen_case(rng, primes, stats):
     pool += [[200, 130], [255]]
     for _ in range(rng.range(0, 4)):
         pool.append([rng.range(lo, 255) for _ in range(rng.range(1, 6))])
+    # long keys around the sizes at which an implementation might switch strategy (stack buffer, block hashing),
+    # in pairs that agree on a long prefix and differ only in the tail
+    if rng.chance(0.5):
+        for _ in range(rng.range(1, 3)):
+            ln = rng.choice([15, 16, 17, 31, 32, 33, 34, 63, 64, 65, 100, 127, 128, 129, 255, 256, 257, 1000])
+            k1 = [rng.range(lo, 255) if binm else rng.range(33, 126) for _ in range(ln)]
+            cut = min(ln - 1, rng.choice([8, 16, 32, 64, ln - 1]))
+            k2 = k1[:cut] + [(b % 90) + 33 if not binm else (b + 1) % 256 for b in k1[cut:]]
+            pool += [k1, k2] + ([k1[:cut]] if cut >= lo and rng.chance(0.5) else [])
+        stats["long_key_cases"] = stats.get("long_key_cases", 0) + 1
     ops = [f"new {req} {int(nocase)} {int(binm)}"]
     n = rng.range(20, 90)
     val = 0
@@ -321,7 +331,10 @@ def check(c):
                   "ops_executed": total_ops, "op_mix": stats["ops"], "modes": stats["modes"],
                   "table_sizes": {str(k): v for k, v in stats["sizes"].items()},
                   "max_distinct_keys_in_one_bucket": stats["max_chain_pool"],
-                  "exhaustive_small_scope_sequences": exhaustive, "corpus_cases": ncorp})
+                  "exhaustive_small_scope_sequences": exhaustive, "corpus_cases": ncorp,
+                  "histories_with_long_key_pairs (15..1000 bytes, common prefix 8..len-1)": stats.get("long_key_cases", 0),
+                  "histories_with_shared_prefix_families": stats.get("shared_prefix_families", 0),
+                  "histories_with_same_bucket_prefix_families": stats.get("same_bucket_prefix_families", 0)})
 
 
 def replay(c, path):
